@@ -312,3 +312,14 @@ def parts_product(**ranges):
     for var, vals in ranges.items():
         out = [p + ["%s == %d" % (var, v)] for p in out for v in vals]
     return out
+
+
+def refine(parts, when, var, values):
+    """Split every partition that contains one of the `when` conjuncts further by `var` (load balancing)."""
+    out = []
+    for p in parts:
+        if any(w in p for w in when):
+            out += [p + ["%s == %d" % (var, v)] for v in values]
+        else:
+            out.append(p)
+    return out
